@@ -59,7 +59,7 @@ func report(prop, tier string, seed int, ps *propSpec, w *world, rr *runResult, 
 		_, inLedger := lg.Obligations[o.name]
 		isClaimed := inLedger || lg.isClaimed(o) || claimEverything
 		ok := o.status == "unsat"
-		if kf, isKnown := known[o.name]; isKnown {
+		if kf, isKnown := lookupKnown(known, o.name); isKnown {
 			if !ok {
 				knownSeen[o.name] = true
 				fmt.Printf("KNOWN-FINDING: property=%s %s [%s]\n", prop, kf.What, o.name)
@@ -227,6 +227,32 @@ func report(prop, tier string, seed int, ps *propSpec, w *world, rr *runResult, 
 	return exit
 }
 
+// lookupKnown matches an obligation against the known findings (exact name, or the
+// finding names a prefix such as fn#post:1 that covers every return site).
+func lookupKnown(known map[string]knownFinding, name string) (knownFinding, bool) {
+	if k, ok := known[name]; ok {
+		return k, true
+	}
+	for pre, k := range known {
+		if strings.HasPrefix(name, pre) && (len(name) == len(pre) || name[len(pre)] == '@' || name[len(pre)] == '~' || name[len(pre)] == ':') {
+			return k, true
+		}
+	}
+	return knownFinding{}, false
+}
+
+func loadKnown(prop string) map[string]knownFinding {
+	var kfs []knownFinding
+	loadJSON(filepath.Join(verifDir, "known_findings.json"), &kfs)
+	known := map[string]knownFinding{}
+	for _, k := range kfs {
+		if k.Property == prop && k.Status == "finding" {
+			known[k.Obligation] = k
+		}
+	}
+	return known
+}
+
 func dedup(xs []string) []string {
 	seen := map[string]bool{}
 	var out []string
@@ -259,11 +285,11 @@ func replay(w *world, o *obligation, dir string) (string, bool) {
 		fmt.Fprintf(&sb, "\nsolver output:\n%s\n", trunc(o.model, 4000))
 	}
 	found := false
-	if o.status == "sat" {
-		if rp, ok := tryReplay(w, o, dir, &sb); ok {
-			found = true
-			_ = rp
-		}
+	// sat: model-driven replay; otherwise a driver that needs no model values may still
+	// reproduce the failure on the real code
+	if rp, ok := tryReplay(w, o, dir, &sb); ok {
+		found = true
+		_ = rp
 	}
 	os.WriteFile(path, []byte(sb.String()), 0o644)
 	return path, found
